@@ -131,6 +131,10 @@ impl VGossip {
     pub async fn run_block_fetcher(&self, ctx: &ctx::Ctx) {
         self.0.run_block_fetcher(ctx).await
     }
+    /// How many `push_validator_addrs` calls of peers this node has started serving.
+    pub fn push_validator_addrs_calls(&self) -> usize {
+        self.0.push_validator_addrs_calls.load(std::sync::atomic::Ordering::SeqCst)
+    }
     /// Blocks currently waiting in the fetch queue for a peer connection to take them.
     pub fn fetch_requested(&self) -> Vec<u64> {
         self.0.fetch_queue.current_blocks()
